@@ -62,7 +62,7 @@ func c16Names(thorough bool) []string {
 
 func C16(r *ck.Run) {
 	requireInstrumented()
-	r.Rule("(a) every string of length <= 4 over {a,z,A,0,9,'.','-','_'} plus boundary lengths and shaped names through IsValidBucketName and (stride) through PUT /name, against the S3 naming predicate; (b) CreateBucket on every existing-bucket state × creator × headers, and ListBuckets over every population of <= 4 buckets of 3 owners × prefix × max-buckets × token walk for user and admin callers; (c) breadth-first search over put/get/delete of every bucket setting (tags, policy, ACL, ownership controls, versioning, lock configuration) with restarts, read back after every step, and DeleteBucket on every non-empty state; (d) every interleaving with bounded preemptions of DeleteBucket against PutObject / nested PutObject / CreateMultipartUpload / UploadPart / CompleteMultipartUpload / CreateBucket / PutBucketTagging on real posix backends; distinct = distinct name / population+query / state / schedule")
+	r.Rule("(a) every string of length <= 4 over {a,z,A,0,9,'.','-','_'} plus boundary lengths and shaped names through IsValidBucketName and (stride) through PUT /name, against the S3 naming predicate; (b) CreateBucket on every existing-bucket state (written to, or configured but never written to) × creator × headers, and ListBuckets over every population of <= 4 buckets of 3 owners × prefix × max-buckets × token walk for user and admin callers; (c) ACL documents (one grantee in several grants) read back before and after a restart, and breadth-first search over put/get/delete of every bucket setting (tags, policy, ACL, ownership controls, versioning, lock configuration) with restarts, read back after every step, and DeleteBucket on every non-empty state; (d) every interleaving with bounded preemptions of DeleteBucket against PutObject / nested PutObject / CreateMultipartUpload / UploadPart / CompleteMultipartUpload / CreateBucket / PutBucketTagging on real posix backends; distinct = distinct name / population+query / state / schedule")
 	r.Assume("reserved bucket-name prefixes and suffixes (xn--, -s3alias, ...) may be accepted or refused; single syscalls are atomic; (d) runs at the backend seam (the ACL lookup of the HTTP layer is not part of the interleaving)")
 	names := c16Names(r.Thorough())
 	r.Sharded(16, func() {
@@ -85,6 +85,7 @@ func C16(r *ck.Run) {
 		if r.ShardI <= 0 {
 			c16HTTPNames(r, names)
 			c16CreateExisting(r)
+			c16ACLs(r)
 		}
 		c16ListBuckets(r)
 		c16Settings(r)
@@ -139,11 +140,20 @@ func c16HTTPNames(r *ck.Run, names []string) {
 // (b1) creating a bucket that exists
 func c16CreateExisting(r *ck.Run) {
 	for _, cfg := range []gw.Opts{{}, {Versioning: true}} {
-		w := NewWorld("c16c", cfg)
+		mk := func() *World {
+			w := NewWorld("c16c", cfg)
+			// a bucket that is configured (owner, tags, ACL) but has never been written to
+			Must(w.F.CreateBucket(gw.Root, "bk-fresh", "x-amz-object-ownership", "BucketOwnerPreferred"), "create fresh")
+			Must(w.F.Do(gw.Root, "PATCH", "/change-bucket-owner", gw.Q("bucket", "bk-fresh", "owner", "usr2"), nil, nil), "chown fresh")
+			Must(w.F.Do(gw.Root, "PUT", "/bk-fresh", "tagging", nil, []byte("<Tagging><TagSet><Tag><Key>k</Key><Value>v</Value></Tag></TagSet></Tagging>")), "tag fresh")
+			Must(w.F.Do(gw.Root, "PUT", "/bk-fresh", "acl", H("x-amz-grant-read", "usr3"), nil), "acl fresh")
+			return w
+		}
+		w := mk()
 		base := w.F.G.Snapshot(gw.SnapOpts{})
 		for _, c := range []gw.Creds{gw.Root, cAdm, cUp, cUsr1, cUsr2} {
 			for _, h := range [][]string{nil, {"x-amz-acl", "public-read"}, {"x-amz-object-ownership", "BucketOwnerPreferred"}, {"x-amz-bucket-object-lock-enabled", "true"}, {"x-amz-grant-full-control", "usr2"}} {
-				for _, b := range []string{w.Bucket, w.Other} {
+				for _, b := range []string{w.Bucket, w.Other, "bk-fresh"} {
 					resp := w.F.CreateBucket(c, b, h...)
 					r.Add("evaluations", 1)
 					r.Distinct(fmt.Sprintf("create-existing|%v|%s|%v|%s", cfg.Versioning, c.Access, h, b))
@@ -158,7 +168,7 @@ func c16CreateExisting(r *ck.Run) {
 					if len(an) > 0 {
 						r.Violation(ck.JoinSig("create-existing", strings.Join(an, "+"), roleOf(c), fmt.Sprint(h)), map[string]any{"bucket": b, "caller": c.Access, "headers": h, "response": resp.String(), "state_diff": diff})
 						w.Close()
-						w = NewWorld("c16c", cfg)
+						w = mk()
 						base = w.F.G.Snapshot(gw.SnapOpts{})
 					}
 				}
@@ -308,6 +318,60 @@ func xmlAll(b []byte, name string) []string {
 		out = append(out, string(b[i+len(open):i+j]))
 		b = b[i+j+len(cl):]
 	}
+}
+
+// (c0) bucket ACL documents: every grant list of a menu (incl. one grantee named in several grants) written as XML
+// body, read back through GetBucketAcl before and after a restart: the set of (grantee, permission) pairs must be
+// the one that was written.
+func c16ACLs(r *ck.Run) {
+	w := NewWorld("c16a", gw.Opts{})
+	defer w.Close()
+	type g struct{ ID, Perm string }
+	menus := [][]g{
+		{{"usr3", "READ"}},
+		{{"usr3", "READ"}, {"usr3", "WRITE"}},
+		{{"usr3", "READ"}, {"usr2", "READ"}, {"usr3", "WRITE"}},
+		{{"usr2", "FULL_CONTROL"}, {"usr3", "READ_ACP"}},
+		{{"usr3", "WRITE"}, {"usr3", "WRITE_ACP"}, {"usr3", "READ"}, {"usr3", "READ_ACP"}},
+		{},
+	}
+	for mi, m := range menus {
+		var x strings.Builder
+		x.WriteString(`<AccessControlPolicy xmlns="http://s3.amazonaws.com/doc/2006-03-01/"><Owner><ID>usr1</ID></Owner><AccessControlList>`)
+		want := map[string]int{}
+		for _, e := range m {
+			fmt.Fprintf(&x, `<Grant><Grantee xmlns:xsi="http://www.w3.org/2001/XMLSchema-instance" xsi:type="CanonicalUser"><ID>%s</ID></Grantee><Permission>%s</Permission></Grant>`, e.ID, e.Perm)
+			want[e.ID+":"+e.Perm]++
+		}
+		x.WriteString(`</AccessControlList></AccessControlPolicy>`)
+		resp := w.F.Do(gw.Root, "PUT", "/"+w.Bucket, "acl", nil, []byte(x.String()))
+		r.Add("evaluations", 1)
+		r.Distinct(fmt.Sprintf("acl-doc|%d", mi))
+		if !resp.OK() {
+			r.Violation(ck.JoinSig("acl", "valid-document-refused", fmtResp(resp)), map[string]any{"document": x.String(), "response": resp.String()})
+			continue
+		}
+		for _, phase := range []string{"no-restart", "after-restart"} {
+			if phase == "after-restart" {
+				w.F.Restart()
+			}
+			got := w.F.Do(gw.Root, "GET", "/"+w.Bucket, "acl", nil, nil)
+			r.Add("evaluations", 1)
+			have := map[string]int{}
+			body := string(got.Body)
+			for _, gr := range strings.Split(body, "<Grant>")[1:] {
+				id, perm := xmlFieldS([]byte(gr), "ID"), xmlFieldS([]byte(gr), "Permission")
+				if id == "usr1" && perm == "FULL_CONTROL" {
+					continue // the owner's own grant may be listed
+				}
+				have[id+":"+perm]++
+			}
+			if !got.OK() || fmt.Sprint(have) != fmt.Sprint(want) {
+				r.Violation(ck.JoinSig("acl", "read-back-differs-from-what-was-written", phase), map[string]any{"written": x.String(), "expected_grants": fmt.Sprint(want), "read_back_grants": fmt.Sprint(have), "response": got.String()})
+			}
+		}
+	}
+	r.Outcome("acl-documents-done")
 }
 
 // (c) bucket settings: BFS over put/get/delete with restarts
